@@ -242,7 +242,7 @@ fn run_late_fault(c: &LateFaultCase) -> CaseResult {
     let ops = tokenize_multi(&c.multi.ops);
     let mut it = Interp::new(&c.multi);
     let kinds = [std::io::ErrorKind::Other, std::io::ErrorKind::BrokenPipe, std::io::ErrorKind::WouldBlock, std::io::ErrorKind::Interrupted];
-    it.vt.set_fault(Some(FaultPlan { at: c.at as usize, mode: FaultMode::Flushes(c.n.max(1)), kind: kinds[c.kind as usize % kinds.len()], os_code: None }));
+    it.vt.set_fault(Some(FaultPlan { at: c.at as usize, mode: FaultMode::Flushes(c.n.max(1)), kind: kinds[c.kind as usize % kinds.len()], os_code: None, bare: false }));
     let mut v = Verdict::default();
     let mut text_after_fault = false;
     for (i, op) in ops.iter().enumerate() {
